@@ -462,6 +462,12 @@ impl<T: Copy> Buffer<T> {
             n
         );
         for tag in tags {
+            if tag.pos() >= n {
+                // Tag for a sample that is not part of this commit. Storing it
+                // would attach it to whatever is written there later; the
+                // producer offers it again together with its sample.
+                continue;
+            }
             let pos = (tag.pos() + s.wpos) % s.capacity();
             let tag = Tag::new(pos, tag.key(), tag.val().clone());
             s.tags.entry(pos).or_default().push(tag);
